@@ -336,6 +336,10 @@ def path_classes(f):
     def good_succ(b):
         blk = f.blocks[b]
         ss = f.succs(b)
+        nr = f._noreturn_blocks()
+        if len(ss) == 2 and any(s in nr for s in ss if s is not None):
+            # an assertion (debug configurations): the failure handler is not a path of the algorithm
+            return [s for s in ss if s is not None and s not in nr]
         if len(ss) == 2 and blk.get('cond') is not None:
             o, neg = f.strip_test(blk['cond'])
             e = f.resolve(o)
@@ -461,6 +465,10 @@ def point_paths(f):
     def good_succ(b):
         blk = f.blocks[b]
         ss = f.succs(b)
+        nr = f._noreturn_blocks()
+        if len(ss) == 2 and any(s in nr for s in ss if s is not None):
+            # an assertion (debug configurations): the failure handler is not a path of the algorithm
+            return [s for s in ss if s is not None and s not in nr]
         if len(ss) == 2 and blk.get('cond') is not None:
             o, neg = f.strip_test(blk['cond'])
             e = f.resolve(o)
